@@ -1,3 +1,5 @@
+from fractions import Fraction
+from math import isfinite
 from typing import List, Tuple, Union, Generator, NoReturn
 
 class Schedule:
@@ -96,6 +98,9 @@ class Schedule:
         date = 0
         while True:
             date = offset + boundaries[index % num_boundaries] + ((index) // num_boundaries * self.cyclelength)
+            if isinstance(date, float) and isfinite(date):
+                # the correctly rounded decimal sum: float additions drift over the cycles (0.1 + 3 * 0.3 = 0.9999999999999999)
+                date = float(Fraction(str(offset)) + Fraction(str(boundaries[index % num_boundaries])) + ((index) // num_boundaries * Fraction(str(self.cyclelength))))
             index += 1
             yield date, values[index % num_boundaries]
 
